@@ -11,7 +11,7 @@ MAIN = "cmd/helios"
 ENGINES = [
     dict(name="S", path="engine/shim/vrt", serves_properties=["C02", "C04", "C05", "C06", "C07", "C08", "C09", "C11", "C12", "C13", "C19"],
          kind_free_text="controlled cooperative scheduler + stateless replay DFS with preemption bounding over the real Helios code (sync/atomic/time/go/select rewritten onto shims by vgen)"),
-    dict(name="W", path="engine/shim/wire", serves_properties=["C01", "C14", "C15"],
+    dict(name="W", path="engine/shim/wire", serves_properties=["C01", "C14", "C15", "C16"],
          kind_free_text="exhaustive enumeration of finite input / configuration / fault-sequence products over real connections: raw-socket HTTP/1.1 client, scripted backends on loopback listeners, the real handler chain behind the real http.Server; differential and reference oracles on the exchanged bytes"),
     dict(name="H", path="engine/shim/vh/hrun.go", serves_properties=["C02", "C04", "C05", "C06", "C07", "C08", "C09", "C11", "C12", "C13", "C19"],
          kind_free_text="explicit-state breadth-first search over event histories of the real objects under a virtual clock, reflective state fingerprint for deduplication, reference-model / monitor oracle on every transition"),
@@ -196,6 +196,18 @@ CHECKS = {
         note="Compression is never required by the oracle (the statement says 'only if'); levels and positions are crossed with a reduced core, not with the full product.",
         jobs=[
             dict(name="c15w", part="W", pkg=MAIN, run="TestVerifC15", mode="plain", gomaxprocs=4, shards=dict(quick=14, thorough=16), timeout=dict(quick=600, thorough=3000)),
+        ],
+        assumptions=[],
+    ),
+    "C16": dict(
+        level="exploration",
+        engine="W",
+        technique="exhaustive enumeration of the product of ID toggles, header names, client value shapes, response paths and backend echo over real connections + enumerated entropy blocks through the real generator",
+        text="Full product over real connections: request_id on/off x trace on/off x header names {default, custom, custom spelled in lower case by the client} x eight response paths, each on its own Helios instance brought into the state that produces it (proxied 200 and 500, refused 502, rate-limited 429, no-healthy-backend 503, breaker-open 503, size_limit 413, custom-auth 401) x seven client value shapes (absent, simple, 200 characters, inner space, non-ASCII, empty, two header lines) x backend silent or echoing. Enabled: the header is on every response, equals the first client-supplied value when there is one, and equals what the backend received; disabled: neither generated nor altered in either direction. Uniqueness is decided relative to the entropy source: crypto/rand.Reader is replaced by enumerating sources (every single-byte variation of a 12-byte block; 40 000 consecutive counter blocks) and every generated ID must be distinct.",
+        note="The statistical claim that 10^5 generations never collide is a property of crypto/rand, not of Helios, and is not claimed; the tutorial 'request-id' plugin, which by its documentation assigns its own ID to every request, is a transforming plugin and outside this property.",
+        jobs=[
+            dict(name="c16w", part="W", pkg=MAIN, run="TestVerifC16", mode="plain", gomaxprocs=4, shards=dict(quick=12, thorough=16), timeout=dict(quick=600, thorough=3000)),
+            dict(name="c16u", part="Unique", pkg=MAIN, run="TestVerifC16Unique", mode="plain", gomaxprocs=2, shards=1, timeout=dict(quick=600, thorough=3000)),
         ],
         assumptions=[],
     ),
